@@ -96,7 +96,7 @@ SPEC = {
 POLS = ["v", "vl", "e", "f", "fl", "vol", "voll", "c12", "c02", "c0", "c", "c21", "c10", "c3"]
 SYM = {"v": 0, "e": 1, "f": 2}          # policy -> id kind
 COUNT = {"orbit_checked": 0, "orbit_cell_checked": 0, "linear_closed": 0, "linear_open_skipped": 0,
-         "ids_checked": 0, "id_pairs": 0, "iter_checked": 0, "tx_vs_plain": 0}
+         "ids_checked": 0, "id_pairs": 0, "iter_checked": 0, "tx_vs_plain": 0, "icell_vs_orbit": 0, "isfree_checked": 0}
 
 
 # ---------------------------------------------------------------------------------------------
@@ -257,6 +257,18 @@ def oracle_c03(case, li):
                     COUNT["tx_vs_plain"] += 1
                     if other != out:
                         return f"{inp}: transactional id {out!r} but plain id {other!r}"
+        elif t[0] == "icell" and t[1] in ("0", "1", "2"):
+            other = ans.get(f"orbitnt {'vef'[int(t[1])]} {t[2]}")
+            if other is not None:
+                COUNT["icell_vs_orbit"] += 1
+                if other != out:
+                    return f"{inp}: i_cell gives {out!r} but the orbit of that cell gives {other!r}"
+        elif t[0] == "isfree" and 1 <= int(t[2]) < n:
+            d = int(t[2])
+            want = all(b[i][d] == 0 for i in range(3)) if t[1] == "all" else b[int(t[1])][d] == 0
+            COUNT["isfree_checked"] += 1
+            if out != f"ok {str(want).lower()}":
+                return f"{inp}: answered {out!r} but the snapshot says {want}"
         elif t[0] in ("iterv", "itere", "iterf"):
             kind = {"iterv": "vid", "itere": "eid", "iterf": "fid"}[t[0]]
             pol = {"iterv": "v", "itere": "e", "iterf": "f"}[t[0]]
@@ -297,7 +309,9 @@ def observe2(darts, pols=POLS):
             out.append(f"orbit {p} {d}")
             out.append(f"orbitnt {p} {d}")
         out += [f"vid {d}", f"vidnt {d}", f"eid {d}", f"eidnt {d}", f"fid {d}", f"fidnt {d}"]
-    out += ["iterv", "itere", "iterf"]
+        # i_cell::<I> (= the orbit of the I-cell; I = 3 must hit the assertion), is_i_free / is_free
+        out += [f"icell {i} {d}" for i in range(4)] + [f"isfree {i} {d}" for i in (0, 1, 2, "all")]
+    out += ["iterv", "itere", "iterf", "nvert"]
     return out
 
 
@@ -414,7 +428,7 @@ COUNT3 = {"maps": 0, "maps_not_wf_skipped": 0, "maps_glued_faces_open_or_unmirro
           "orbit_cell_checked": 0, "vertex_orbit_skipped": 0, "linear_closed": 0, "linear_open_skipped": 0,
           "ids_checked": 0, "vid_skipped": 0, "fid_open_or_unmirrored_skipped": 0, "fid_open_unglued_checked": 0, "id_pairs": 0, "iter_checked": 0,
           "iter_mechanism_checked": 0, "iter_skipped": 0, "tx_vs_plain": 0, "maps_with_removed_darts": 0,
-          "volumes_with_open_face": 0, "boundary_vertices": 0}
+          "volumes_with_open_face": 0, "boundary_vertices": 0, "icell_vs_orbit": 0, "isfree_checked": 0}
 
 
 def gens3(pol):
@@ -552,6 +566,21 @@ def oracle_c03_3d(case, li):
     claimed = {kind: set() for kind in SYM3.values()}  # darts on which the id clause is claimed
     for inp, out in obs:
         t = inp.split()
+        if t[0] == "icell" and t[1] in ("0", "1", "2", "3"):
+            other = ans.get(f"orbitnt {('v', 'e', 'f', 'vol')[int(t[1])]} {t[2]}")
+            if other is not None:
+                COUNT3["icell_vs_orbit"] += 1
+                if other != out:
+                    return f"{inp}: i_cell gives {out!r} but the orbit of that cell gives {other!r}"
+            continue
+        if t[0] == "isfree":
+            if 1 <= int(t[2]) < n:
+                d = int(t[2])
+                want = all(b[i][d] == 0 for i in range(4)) if t[1] == "all" else b[int(t[1])][d] == 0
+                COUNT3["isfree_checked"] += 1
+                if out != f"ok {str(want).lower()}":
+                    return f"{inp}: answered {out!r} but the snapshot says {want}"
+            continue
         if t[0] in ("orbit", "orbitnt"):
             pol, d = t[1], int(t[2])
             paths = gens3(pol)
@@ -662,8 +691,9 @@ def observe3(darts, pols=POLS3, iters=True):
             out.append(f"orbitnt {p} {d}")
         for k in ("vid", "eid", "fid", "volid"):
             out += [f"{k} {d}", f"{k}nt {d}"]
+        out += [f"icell {i} {d}" for i in range(5)] + [f"isfree {i} {d}" for i in (0, 1, 2, 3, "all")]
     if iters:
-        out += ["iterv", "itere", "iterf", "itervol"]
+        out += ["iterv", "itere", "iterf", "itervol", "nvert"]
     return out
 
 
